@@ -17,7 +17,7 @@ EXPLANATION = (
     "structural part decided here.")
 # every anchor of these rules lives in the h3 crate: thorough tier repeats them on the feature-less build
 EXTRA_CONFIGS = ["h3-plain"]
-RULES = "C07-a stream-scoped faults are not connection-fatal (A3); C07-b stream errors never become clean EOF (A3); C07-c nothing but the shared state is shared (A12); shared: frame reader memo under C07-b; shared through a proxy: C12-a under C07-a, C17-b (poll_ready) under C07-b"
+RULES = "C07-a stream-scoped faults are not connection-fatal (A3), no code holding a StreamErrorIncoming on a per-request handle raises a connection error (A10, type-directed); C07-b stream errors never become clean EOF (A3); C07-c nothing but the shared state is shared (A12); shared: frame reader memo under C07-b; shared through a proxy: C12-a under C07-a, C17-b (poll_ready) under C07-b"
 
 CEC = "h3::error::connection_error_creators::"
 FATAL = ("handle_connection_error_on_stream", "handle_connection_error", "set_conn_error_and_wake", "set_conn_error")
@@ -27,7 +27,27 @@ def fatal_in(prog, p):
     return bool(p.calls(*FATAL)) or bool(pa.closure_calls(prog, p, *FATAL))
 
 
+def returned_codes(prog, p):
+    """Code constants inside the error value the path RETURNS (not those handed to stop_sending / reset on the way): read off the
+    returned value, and off what the adapter closure that certainly ran on the path (`.map_err(|e| StreamError{..})`) returns."""
+    import re
+    out = set(re.findall(r"Code::([A-Z0-9_]+)", pa.vfmt(p.ret) if p.ret is not None else ""))
+    for ck, st, _ in p.adapter_closures():
+        if st != "yes" or ck not in pa.vfmt(p.ret):
+            continue
+        for c in prog.by_key.get(ck, []):
+            try:
+                for q in pa.Explorer(prog, c, max_visits=1).paths():
+                    if q.end == "return" and q.ret is not None:
+                        out |= set(re.findall(r"Code::([A-Z0-9_]+)", pa.vfmt(q.ret)))
+            except pa.PathExplosion:
+                out.add("?")
+    return out
+
+
 def run(ctx):
+    # the codes this property names are the registry values (the rules below speak of them by name)
+    shared.error_code_values(ctx, "C07-a", ("H3_MESSAGE_ERROR",))
     # a well-formed stream must never be reported as malformed: the frame reader's memo (shared with C02) is what turns a
     # correct byte sequence delivered in pieces into H3_FRAME_ERROR when it goes stale
     shared.frame_decoder_memo(ctx, "C07-b")
@@ -91,9 +111,11 @@ def run(ctx):
         for p in mal:
             codes = pa.path_codes(prog, p)
             cc = pa.closure_calls(prog, p, "stop_sending") or p.calls("stop_sending")
-            ok = not fatal_in(prog, p) and "H3_MESSAGE_ERROR" in codes and bool(cc)
+            rc = returned_codes(prog, p)
+            ok = not fatal_in(prog, p) and "H3_MESSAGE_ERROR" in codes and bool(cc) and rc == {"H3_MESSAGE_ERROR"}
             ctx.check(ok, "C07-a", cr.key, "malformed response -> stream error H3_MESSAGE_ERROR, stop_sending, not fatal",
-                      "a malformed response leads to codes %s fatal=%s stop_sending=%s" % (sorted(codes), fatal_in(prog, p), bool(cc)), "", None, p.describe())
+                      "a malformed response leads to codes %s, the returned error carries %s, fatal=%s stop_sending=%s"
+                      % (sorted(codes), sorted(rc), fatal_in(prog, p), bool(cc)), "", None, p.describe())
     tr = ru.need(ctx, "C07-a", "h3::connection::RequestStream::poll_recv_trailers")
     if tr:
         ps = [p for p in ru.all_paths(ctx, "C07-a", tr, max_visits=1) if p.end == "return"]
@@ -101,10 +123,11 @@ def run(ctx):
         ctx.floor("C07-a", "malformed-trailers returns", len(mal), 1)
         for p in mal:
             codes = pa.path_codes(prog, p)
-            ok = not fatal_in(prog, p) and "H3_MESSAGE_ERROR" in codes
+            rc = returned_codes(prog, p)
+            ok = not fatal_in(prog, p) and "H3_MESSAGE_ERROR" in codes and rc == {"H3_MESSAGE_ERROR"}
             ctx.check(ok, "C07-a", tr.key, "malformed trailers -> stream error H3_MESSAGE_ERROR, not fatal",
-                      "validly encoded but malformed trailers lead to codes %s, connection-fatal call: %s; a malformed message must be "
-                      "refused on that stream only" % (sorted(codes), fatal_in(prog, p)), "", None, p.describe())
+                      "validly encoded but malformed trailers lead to codes %s (returned error: %s), connection-fatal call: %s; a malformed "
+                      "message must be refused on that stream only" % (sorted(codes), sorted(rc), fatal_in(prog, p)), "", None, p.describe())
 
     # a failure of the transport on ONE stream (reset, STOP_SENDING, a write that is refused) has the type StreamErrorIncoming; code
     # that holds such a value hands it to CloseStream::handle_quic_stream_error (tabled above) and never raises a connection error
@@ -192,9 +215,12 @@ def run(ctx):
                 lab = cls.get(())
                 if lab == "Ready":
                     lab = "Ready:" + str(cls.get(("Ready",)))
-                rows[lab] = p
-        ok = "Ready:Err" in rows and rows["Ready:Err"].ret_shape() == "Ready(Err(FrameStreamError::Quic))" and \
-            "Ready:Ok" in rows and rows["Ready:Ok"].ret_shape().startswith("Ready(Ok(") and rows.get("Pending") is not None and rows["Pending"].ret_shape() == "Pending"
+                rows.setdefault(lab, []).append(p)
+        # (every path of a row: an extra arm for one kind of error - `Err(StreamTerminated) if buffered => Ok(false)` - is a row member)
+        ok = bool(rows.get("Ready:Err")) and all(p.ret_shape() == "Ready(Err(FrameStreamError::Quic))" for p in rows["Ready:Err"]) and \
+            bool(rows.get("Ready:Ok")) and all(p.ret_shape().startswith("Ready(Ok(") for p in rows["Ready:Ok"]) and \
+            bool(rows.get("Pending")) and all(p.ret_shape() == "Pending" for p in rows["Pending"])
+        rows = {k: v[-1] for k, v in rows.items()} if ok else {k: v[0] if len({p.ret_shape() for p in v}) == 1 else v for k, v in rows.items()}
         comb = [p for p in ps if p.has_call("BufRecvStream::poll_read")]
         if not ok and len(comb) == 1 and not rows:
             ps = comb
@@ -219,20 +245,21 @@ def run(ctx):
             for p in ps:
                 if not p.has_call("BufRecvStream::poll_read"):
                     continue
-                oc = tuple(sorted(p.outcomes("BufRecvStream::poll_read")))
-                seen[oc] = p.ret_shape()
-                if oc == ("Err", "Ready"):
+                oc_ = p.outcomes("BufRecvStream::poll_read")
+                oc = "Err" if "Err" in oc_ else "Pending" if "Pending" in oc_ else "Ok" if ("Ok" in oc_ and "Ready" in oc_) else "?"
+                seen.setdefault(oc, set()).add(p.ret_shape())
+                if oc == "Err":
                     good &= quic_err(p)
-                elif oc == ("Ok", "Ready"):
+                elif oc == "Ok":
                     good &= p.ret_shape().startswith("Ready(Ok(")
-                elif oc == ("Pending",):
+                elif oc == "Pending":
                     good &= p.ret_shape() == "Pending"
                 else:
                     good = False
-            ok = good and set(seen) == {("Err", "Ready"), ("Ok", "Ready"), ("Pending",)}
+            ok = good and set(seen) == {"Err", "Ok", "Pending"}
             rows = rows or seen
         ctx.check(ok, "C07-b", fs.key, "stream error -> FrameStreamError::Quic(e), never `end`",
-                  "try_recv rows: %s" % {k: (v.ret_shape() if hasattr(v, "ret_shape") else v) for k, v in rows.items()}, "")
+                  "try_recv rows: %s" % {k: (v.ret_shape() if hasattr(v, "ret_shape") else [p.ret_shape() for p in v] if isinstance(v, list) else v) for k, v in rows.items()}, "")
 
     # ------------------------------------------------------------------ C07-c type facts
     handles = ["h3::connection::RequestStream", "h3::client::stream::RequestStream", "h3::server::stream::RequestStream", "h3::frame::FrameStream",
